@@ -144,10 +144,11 @@ class Ctor(Unit):
     prop = "C16"
     allowed_raises = ()
 
-    def __init__(self, meth, nargs, expect, doc, raises=()):
-        """expect(self, ctx, st) -> list of (label, goal) given ctx['calls'] (create_node calls) and ctx['out']"""
-        self.meth, self.nargs, self.expect = meth, nargs, expect
-        self.name = f"ExpressionManager.{meth}" + (f"/{nargs}" if nargs is not None else "")
+    def __init__(self, meth, nargs, expect, doc, raises=(), iterable=False):
+        """expect(self, ctx, st) -> list of (label, goal) given ctx['calls'] (create_node calls) and ctx['out']
+        iterable: the arguments are handed over as ONE list (the second documented calling convention of the n-ary constructors)"""
+        self.meth, self.nargs, self.expect, self.iterable = meth, nargs, expect, iterable
+        self.name = f"ExpressionManager.{meth}" + ((f"/[{nargs}]" if iterable else f"/{nargs}") if nargs is not None else "")
         self.doc = doc
         self.allowed_raises = tuple(raises)
 
@@ -187,6 +188,8 @@ class Ctor(Unit):
         ctx = dict(m=m, tt=tt, ff=ff, env=env)
         args = self.make_args(eng, st, ctx)
         ctx["args"] = args
+        if self.iterable:
+            return [m, st.alloc(CList(list(args)), "list")], {}, ctx
         return [m] + args, {}, ctx
 
     def make_args(self, eng, st, ctx):
@@ -322,6 +325,8 @@ CTORS = [
 for _k, _kind, _unit in (("And", OK.AND, "tt"), ("Or", OK.OR, "ff"), ("Plus", OK.PLUS, 0), ("Times", OK.TIMES, 1)):
     for _n in (0, 1, 2, 3):
         CTORS.append(Ctor(_k, _n, _nary(_kind, _unit), f"{_k} with {_n} argument(s): documented normal form (arity bounded at 3: the body does not depend on the arity beyond 0/1/many)"))
+    for _n in (0, 1, 2):
+        CTORS.append(Ctor(_k, _n, _nary(_kind, _unit), f"{_k} given one list of {_n} argument(s): the same documented normal form as for unpacked arguments", iterable=True))
 
 UNITS = [CreateNode()] + CTORS
 
@@ -396,6 +401,9 @@ def bounded(tier, seed):
                 (And() is TRUE(), "And() is TRUE"), (Or() is FALSE(), "Or() is FALSE"), (And(b1) is b1, "And(x) is x"), (Or(b1) is b1, "Or(x) is x"),
                 (And([b1]) is b1, "And([x]) is x"), (Plus(n1) is n1, "Plus(x) is x"), (Times(n1) is n1, "Times(x) is x"),
                 (Plus() is Int(0), "Plus() is Int(0)"), (Times() is Int(1), "Times() is Int(1)"),
+                (Plus([]) is Int(0), "Plus([]) is Int(0)"), (Times(()) is Int(1), "Times(()) is Int(1)"), (And([]) is TRUE(), "And([]) is TRUE"),
+                (Or(iter([])) is FALSE(), "Or(<empty iterator>) is FALSE"), (Plus(x for x in ()) is Int(0), "Plus(<empty generator>) is Int(0)"),
+                (Plus([n1]) is n1, "Plus([x]) is x"), (Times([n1, n2]) is Times(n1, n2), "Times([a,b]) is Times(a,b)"), (Or([b1]) is b1, "Or([x]) is x"),
                 (Not(Not(b1)) is b1, "Not(Not(x)) is x"), (GE(n1, n2) is LE(n2, n1), "GE(a,b) is LE(b,a)"), (GT(n1, n2) is LT(n2, n1), "GT(a,b) is LT(b,a)"),
                 (And(b1, b2) is And(b1, b2), "same construction, same node"), (And(b1, b2) is And([b1, b2]), "And(a,b) is And([a,b])"),
                 ((And(b1, b2) is And(b2, b1)) == (b1 is b2), "different argument order, different node (unless equal)"),
